@@ -18,6 +18,7 @@ import (
 	_ "github.com/pion/interceptor/verifh/c02"
 	_ "github.com/pion/interceptor/verifh/c03"
 	_ "github.com/pion/interceptor/verifh/c04"
+	_ "github.com/pion/interceptor/verifh/c05"
 	_ "github.com/pion/interceptor/verifh/c06"
 	_ "github.com/pion/interceptor/verifh/c07"
 	_ "github.com/pion/interceptor/verifh/c08"
